@@ -86,10 +86,10 @@ pub(crate) struct FlushWorker<T: Types> {
 
 impl<T: Types> FlushWorker<T> {
     /// When starting, there is at most one open chunk file that is not sync.
-    pub(crate) fn spawn(self) {
+    pub(crate) fn spawn(self) -> std::thread::JoinHandle<()> {
         #[cfg(feature = "verif-hooks")]
         let verif_child = crate::verif_hooks::spawn_begin();
-        std::thread::Builder::new()
+        let handle = std::thread::Builder::new()
             .name("raft_log_wal_flush_worker".to_string())
             .spawn(move || {
                 #[cfg(feature = "verif-hooks")]
@@ -99,6 +99,7 @@ impl<T: Types> FlushWorker<T> {
             .expect("Failed to start sync worker thread");
         #[cfg(feature = "verif-hooks")]
         crate::verif_hooks::spawn_end(verif_child);
+        handle
     }
 
     pub(crate) fn new(
